@@ -226,6 +226,19 @@ func c07corpus(c *Ctx) []c07text {
 	} {
 		out = append(out, c07text{fmt.Sprintf("lit:%d", i), []byte(s)})
 	}
+	// every exponent a double can carry, of either sign, with one, three and two mantissa digits
+	{
+		var sb strings.Builder
+		sb.WriteString(`{"exp":[`)
+		for e := -307; e <= 307; e++ {
+			if e > -307 {
+				sb.WriteByte(',')
+			}
+			fmt.Fprintf(&sb, "1e%d,1.25E%d,-3.5e%+d", e, e, e)
+		}
+		sb.WriteString(`]}`)
+		out = append(out, c07text{"lit:exponents", []byte(sb.String())})
+	}
 	// numbers no 64-bit type can hold: rejecting them is fine, turning them into something else is not
 	out = append(out, c07text{"overflow:0", []byte(`{"a":1e400,"b":[1E+999,-1e400],"c":1}`)})
 	c07texts = out
@@ -388,6 +401,7 @@ func execC07(x *X) {
 			if op.I > 0 {
 				rd.Chunks = []int{int(op.I)}
 			}
+			rd.EOFWithData = op.ID%2 == 0
 			for _, s := range op.L {
 				n, _ := strconv.Atoi(s)
 				rd.Chunks = append(rd.Chunks, n)
